@@ -53,6 +53,10 @@ Dispatch(e) == LET k == e.k  a == e.a IN
     \/ e.op = "Extract"     /\ Extract(k, a.which)
     \/ e.op = "IterRel"     /\ IterRel(k, a.path, a.i, a.j)
     \/ e.op = "Algo"        /\ Algo(k, a.alg, a.i, a.m, a.j, e.st.o[k].idx)
+    \/ e.op = "ResizeFrom"  /\ ResizeFrom(k, a.n, a.s, a.path, a.nav, a.j)
+    \/ e.op = "CtorFrom"    /\ CtorFrom(k, a.n, a.path, a.nav, a.j)
+    \/ e.op = "XAssign"     /\ XAssign(k, a.path, a.nav, a.i, a.pad, a.spath, a.snav, a.j, a.mv)
+    \/ e.op = "XCopy"       /\ XCopy(k, a.pad, a.i, a.j, a.m, a.dir)
     \/ e.op = "Feature"     /\ Feature(k, a.name)
 
 TNext ==
